@@ -149,6 +149,17 @@ func (r *renderer) Text(txt []byte, inURL, isSet bool) error {
 // showInURL shows v in a URL in the given context.
 func (r *renderer) showInURL(env *env, v any, ctx ast.Context) error {
 
+	if ctx == ast.ContextMarkdown {
+		// The type checker allows a value with a Markdown method in a URL in
+		// the Markdown context: show it as its native.Markdown value.
+		switch m := v.(type) {
+		case native.MarkdownStringer:
+			v = m.Markdown()
+		case native.MarkdownEnvStringer:
+			v = m.Markdown(env)
+		}
+	}
+
 	var b strings.Builder
 	err := showInHTML(env, &b, v)
 	if err != nil {
